@@ -23,7 +23,19 @@ from ..vm import interp, kernel
 
 SIZES = {"B": 1, "H": 2, "I": 4, "Q": 8, "b": 1, "h": 2, "i": 4, "q": 8,
          "x": 8}
+SIZES.update({p + f: n for p in "<>!" for f, n in list(SIZES.items())
+              if f != "x"})          # formats with an explicit byte order
 SIZE_OP = {1: Opcode.B, 2: Opcode.H, 4: Opcode.W, 8: Opcode.DW}
+
+
+def encode_raw(value, fmt):
+    """the bytes struct.pack would store for `value` (wrapped into the
+    format's range), as the little-endian integer a raw load shows"""
+    n = SIZES[fmt]
+    b = (value & ((1 << (8 * n)) - 1)).to_bytes(n, "little")
+    if fmt[0] in ">!":
+        b = b[::-1]
+    return int.from_bytes(b, "little")
 
 def fsize(fmt):
     """size in bytes of a variable format (bit fields live in one byte)"""
